@@ -32,6 +32,7 @@ from ..mutate import mutate, remove_stmts, replace_expr, replace_stmt, parse_stm
 from ..model import AnalysisError, AnchorMissing
 from ..x_sint import check_sint, int_sites
 from ..x_paths import path_states, satisfied, reachable_from
+from ..x_resolve import expand, resolve, unique_def
 
 TECHNIQUE = "SINT (regex-language inclusion + exception-handler lookup) + must-pass-through/guard dominance and path-sensitive event-or-guard checks on the CFGs of the range/304 code"
 EXPLANATION = (
@@ -278,12 +279,15 @@ def rule_content_range(ck):
     ck.need(rets, "_get_content_range returns nothing")
     params = fi.params()
     for r in rets:
-        t, holes = _template(r.value)
+        t, holes = _template(resolve(fi, r.value))
         if t is None:
             raise AnalysisError("C27.content-range: return value of _get_content_range is not a recognised string template")
         ck.ob("C27.content-range", fi, r, t == "bytes {}-{}/{}", "Content-Range has the form 'bytes <first>-<last>/<size>'")
-        ck.ob("C27.content-range", fi, r, len(holes) == 3 and q.dotted(holes[2]) == params[2], "the complete length reported is the total parameter (%s)" % params[2])
-        ck.ob("C27.content-range", fi, r, len(holes) == 3 and q.dotted(holes[0]) == params[0] and q.dotted(holes[1]) == params[1], "first/last positions come from the start/end parameters")
+        if len(holes) == 3:
+            # what the holes *are* (locals looked through); the numbers themselves are decided by C27.range-model
+            h = [expand(fi, x) for x in holes]
+            ck.ob("C27.content-range", fi, r, q.dotted(h[2]) == params[2], "the complete length reported is the total parameter (%s)" % params[2])
+            ck.ob("C27.content-range", fi, r, params[0] in q.names_in(h[0]) and params[1] in q.names_in(h[1]), "first/last positions are computed from the start/end parameters")
 
 
 def rule_get_content(ck):
@@ -302,15 +306,23 @@ def rule_get_content(ck):
                if isinstance(x, (ast.Assign, ast.AnnAssign)) and isinstance(x.targets[0] if isinstance(x, ast.Assign) else x.target, ast.Name) and x.value is not None and end in q.names_in(x.value)]
     ck.need(len(set(budgets)) == 1, "get_content: byte budget derived from %s not identified (unknown idiom)" % end)
     rem = budgets[0]
-    # budget is None exactly when end is None
+    # on every path to a read: the budget was derived from `end` (and not reset to None since) unless end is None
+    def sets_budget(n2):
+        return n2.kind == "stmt" and isinstance(n2.ast, (ast.Assign, ast.AnnAssign)) and rem in q.assigned_paths(n2.ast) and n2.ast.value is not None and end in q.names_in(n2.ast.value)
+
+    def clears_budget(n2):
+        return n2.kind == "stmt" and isinstance(n2.ast, (ast.Assign, ast.AnnAssign)) and rem in q.assigned_paths(n2.ast) and n2.ast.value is not None and not sets_budget(n2)
+
+    stb = path_states(fi, ["%s is None" % end], {"budget": sets_budget}, kills={"budget": clears_budget}, follow_exc=False)
+    for nd, c in reads:
+        ck.ob("C27.slice", fi, c, satisfied(stb, nd, [("fact", "%s is None" % end, True), ("event", "budget")]) is True, "whenever %s is given, a byte budget derived from it is in force at the read (unlimited only when %s is None)" % (end, end))
     facts = must_facts(fi.cfg)
-    for nd in fi.cfg.stmt_nodes(lambda nd: nd.kind == "stmt" and isinstance(nd.ast, (ast.Assign, ast.AnnAssign)) and rem in q.assigned_paths(nd.ast)):
+    for nd in fi.cfg.stmt_nodes(sets_budget):
         v = nd.ast.value
-        if q.is_const(v, None):
-            ck.ob("C27.slice", fi, nd.ast, holds(facts[nd.id], "%s is None" % end, True), "the budget is unlimited only when %s is None" % end)
-        elif end in q.names_in(v):
-            ok = isinstance(v, ast.BinOp) and isinstance(v.op, ast.Sub) and q.dotted(v.left) == end and start in q.names_in(v.right)
-            ck.ob("C27.slice", fi, nd.ast, ok and holds(facts[nd.id], "%s is None" % end, False), "the budget is %s minus the start offset" % end)
+        ok = isinstance(v, ast.BinOp) and isinstance(v.op, ast.Sub) and q.dotted(v.left) == end and start in q.names_in(v.right)
+        if not ok and not isinstance(v, ast.BinOp):
+            raise AnalysisError("get_content: budget expression %s not recognised" % q.unparse(v))
+        ck.ob("C27.slice", fi, nd.ast, ok, "the budget is %s minus the start offset" % end)
     # every read is capped by the budget: read size is a local that is assigned the budget under `budget < size`
     chunk_vars = set()
     for nd, c in reads:
@@ -399,7 +411,7 @@ def rule_304(ck):
     eqs = [x for x in eqs if not isinstance(x.comparators[0], ast.Constant)]
     ck.floor("C27.conditional", len(eqs), 1, "entity-tag comparisons in check_etag_header")
     for x in eqs:
-        l, r = x.left, x.comparators[0]
+        l, r = expand(ce, x.left), expand(ce, x.comparators[0])
         ok = isinstance(l, ast.Call) and isinstance(r, ast.Call) and q.dotted(l.func) == q.dotted(r.func) and q.dotted(l.func) is not None
         ck.ob("C27.conditional", ce, x, ok, "weak comparison: both entity tags pass through the same normaliser before ==")
     # no computed etag / no candidates => False
